@@ -212,11 +212,25 @@ func c13Random(c *Case) {
 	var p *Program
 	var doc []byte
 	kind := ""
-	switch rng.IntN(3) {
+	switch rng.IntN(5) {
 	case 0:
 		g := &funcGen{rng: rng, stats: map[string]int{}}
 		p, doc = g.Program()
 		kind = "functions"
+	case 1:
+		// assignment histories: member / index chains, object and array literals, json(), compound assignment
+		g := &asgGen{rng: rng, assigned: map[string]bool{}, stats: map[string]int{}, allowTag: noPinned}
+		d := map[string]any{"a": g.genDocVal(2), "list": g.genDocVal(2), "b": g.genDocVal(2)}
+		p = c09Program(g.history(3+rng.IntN(8), d))
+		doc = jsonBytes(d)
+		kind = "assignments"
+	case 2:
+		mg := &matchGen{rng: rng, stats: map[string]int{}}
+		target := mg.subject(2)
+		cases, _, _ := mg.cases(target, false)
+		p = &Program{Items: []any{&Rule{Kind: "pattern", Body: Blk(Pr(S("value"), jsonOf(&MatchExpr{Subj: V("$"), Cases: cases})))}}}
+		doc = jsonBytes([]any{target, mg.subject(2), mg.subject(1)})
+		kind = "match"
 	default:
 		g := newStructGen(rng, sgOpts{MaxDepth: 1 + rng.IntN(4), Funcs: rng.IntN(2) == 0, Signals: true, Exit: true, MultiRule: true, NonASCII: true})
 		p, doc = g.Program()
